@@ -33,3 +33,391 @@ Theorem hoisting_is_monotone :
       Forall2 (fun it l => find_text (hset h') (tlit (itTok it)) (itType it) = Some l) its labels.
 Proof. exact add_texts_spec. Qed.
 Print Assumptions hoisting_is_monotone.
+
+(* ---------- numbering, sharing, injectivity, defined once - texts and movements (Hoisting.v) ---------- *)
+(* text_label s n = s ++ "_Text_" ++ n, mov_label s n = s ++ "_Movement_" ++ n; `owned s owners` = how many labels script s already
+   owns; `hoist_table F G h`: the hoisting state h is exactly the table built from the first occurrences F (texts) and G (movements)
+   in order.  (1) a new content gets <script>_Text_<number the script already owns> (add_implicit_new_text / _mov), (2) a known content
+   gets the label of its first occurrence, across scripts (add_implicit_known_*; program level: hoist_all_labels), (3) label names
+   are injective and text / movement names never collide, the map label -> content is a function, (4) every hoisted label is
+   defined exactly once in the program's text list / movement list with exactly that content; a clash with a user-defined text or
+   movement name is a compile error. *)
+From Pory Require Import Hoisting.
+Theorem text_label_injective :
+  forall (s : text) (n : nat) (s' : text) (m : nat), printable n -> printable m -> text_label s n = text_label s' m -> s = s' /\ n = m.
+Proof. exact Hoisting.text_label_injective. Qed.
+Print Assumptions text_label_injective.
+
+Theorem mov_label_injective :
+  forall (s : text) (n : nat) (s' : text) (m : nat), printable n -> printable m -> mov_label s n = mov_label s' m -> s = s' /\ n = m.
+Proof. exact Hoisting.mov_label_injective. Qed.
+Print Assumptions mov_label_injective.
+
+Theorem text_label_not_mov_label :
+  forall (s : text) (n : nat) (s' : text) (m : nat), text_label s n <> mov_label s' m.
+Proof. exact Hoisting.text_label_not_mov_label. Qed.
+Print Assumptions text_label_not_mov_label.
+
+Theorem add_implicit_new_text :
+  forall (F : list imptext) (G : list impmov) (h : hst) (it : imptext),
+  hoist_table F G h ->
+  ~ In (tkey it) (map tkey F) ->
+  let lbl := text_label (itScript it) (owned (itScript it) (map itScript F)) in
+  add_implicit {| idT := [it]; idM := [] |} h = (define_text h it, [(itCid it, itArg it, lbl)]) /\
+  htexts (define_text h it) = htexts h ++ [text_def lbl it] /\ hoist_table (F ++ [it]) G (define_text h it).
+Proof. exact Hoisting.add_implicit_new_text. Qed.
+Print Assumptions add_implicit_new_text.
+
+Theorem add_implicit_known_text :
+  forall (F : list imptext) (G : list impmov) (h : hst) (it : imptext),
+  hoist_table F G h ->
+  In (tkey it) (map tkey F) ->
+  exists (A : list imptext) (fo : imptext) (B : list imptext),
+    F = A ++ fo :: B /\
+    tkey fo = tkey it /\
+    add_implicit {| idT := [it]; idM := [] |} h = (h, [(itCid it, itArg it, text_label (itScript fo) (owned (itScript fo) (map itScript A)))]).
+Proof. exact Hoisting.add_implicit_known_text. Qed.
+Print Assumptions add_implicit_known_text.
+
+Theorem add_implicit_new_mov :
+  forall (F : list imptext) (G : list impmov) (h : hst) (im : impmov),
+  hoist_table F G h ->
+  ~ In (mkey im) (map mkey G) ->
+  let lbl := mov_label (imScript im) (owned (imScript im) (map imScript G)) in
+  add_implicit {| idT := []; idM := [im] |} h = (define_mov h im, [(imCid im, imArg im, lbl)]) /\
+  hmovs (define_mov h im) = hmovs h ++ [TMovement lbl false (imCmdTok im) (imToks im)] /\ hoist_table F (G ++ [im]) (define_mov h im).
+Proof. exact Hoisting.add_implicit_new_mov. Qed.
+Print Assumptions add_implicit_new_mov.
+
+Theorem add_implicit_known_mov :
+  forall (F : list imptext) (G : list impmov) (h : hst) (im : impmov),
+  hoist_table F G h ->
+  In (mkey im) (map mkey G) ->
+  exists (A : list impmov) (fo : impmov) (B : list impmov),
+    G = A ++ fo :: B /\
+    mkey fo = mkey im /\
+    add_implicit {| idT := []; idM := [im] |} h = (h, [(imCid im, imArg im, mov_label (imScript fo) (owned (imScript fo) (map imScript A)))]).
+Proof. exact Hoisting.add_implicit_known_mov. Qed.
+Print Assumptions add_implicit_known_mov.
+
+Theorem add_implicit_table :
+  forall (imp : impdata) (F : list imptext) (G : list impmov) (h h' : hst) (ps : list patch),
+  hoist_table F G h ->
+  add_implicit imp h = (h', ps) ->
+  hoist_table (F ++ new_texts (map tkey F) (idT imp)) (G ++ new_movs (map mkey G) (idM imp)) h' /\
+  (exists tl ml : list text,
+     ps =
+     map (fun p : imptext * text => text_patch (fst p) (snd p)) (combine (idT imp) tl) ++
+     map (fun p : impmov * text => mov_patch (fst p) (snd p)) (combine (idM imp) ml) /\
+     length tl = length (idT imp) /\
+     length ml = length (idM imp) /\
+     Forall2 (fun (it : imptext) (l : text) => find_text (hset h') (tlit (itTok it)) (itType it) = Some l) (idT imp) tl /\
+     Forall2 (fun (im : impmov) (l : text) => assoc (hmset h') (mov_key (imToks im)) = Some l) (idM imp) ml).
+Proof. exact Hoisting.add_implicit_table. Qed.
+Print Assumptions add_implicit_table.
+
+Theorem add_implicit_labels :
+  forall (imp : impdata) (F : list imptext) (G : list impmov) (h h' : hst) (ps : list patch),
+  hoist_table F G h ->
+  add_implicit imp h = (h', ps) ->
+  let F' := F ++ new_texts (map tkey F) (idT imp) in
+  let G' := G ++ new_movs (map mkey G) (idM imp) in
+  exists tl ml : list text,
+    ps =
+    map (fun p : imptext * text => text_patch (fst p) (snd p)) (combine (idT imp) tl) ++
+    map (fun p : impmov * text => mov_patch (fst p) (snd p)) (combine (idM imp) ml) /\
+    Forall2
+      (fun (it : imptext) (l : text) =>
+       exists (A : list imptext) (fo : imptext) (B : list imptext),
+         F' = A ++ fo :: B /\ tkey fo = tkey it /\ l = text_label (itScript fo) (owned (itScript fo) (map itScript A))) 
+      (idT imp) tl /\
+    Forall2
+      (fun (im : impmov) (l : text) =>
+       exists (A : list impmov) (fo : impmov) (B : list impmov),
+         G' = A ++ fo :: B /\ mkey fo = mkey im /\ l = mov_label (imScript fo) (owned (imScript fo) (map imScript A))) 
+      (idM imp) ml.
+Proof. exact Hoisting.add_implicit_labels. Qed.
+Print Assumptions add_implicit_labels.
+
+Theorem text_table_lookup :
+  forall (F : list imptext) (h : hst),
+  text_table F h ->
+  forall v ty l : text,
+  find_text (hset h) v ty = Some l <->
+  (exists (A : list imptext) (it : imptext) (B : list imptext),
+     F = A ++ it :: B /\ tkey it = (v, ty) /\ l = text_label (itScript it) (owned (itScript it) (map itScript A))).
+Proof. exact Hoisting.text_table_lookup. Qed.
+Print Assumptions text_table_lookup.
+
+Theorem mov_table_lookup :
+  forall (G : list impmov) (h : hst),
+  mov_table G h ->
+  forall k l : text,
+  assoc (hmset h) k = Some l <->
+  (exists (A : list impmov) (im : impmov) (B : list impmov),
+     G = A ++ im :: B /\ mkey im = k /\ l = mov_label (imScript im) (owned (imScript im) (map imScript A))).
+Proof. exact Hoisting.mov_table_lookup. Qed.
+Print Assumptions mov_table_lookup.
+
+Theorem hoist_all_table :
+  forall (imps : list impdata) (F : list imptext) (G : list impmov) (h h' : hst) (pss : list (list patch)),
+  hoist_table F G h ->
+  hoist_all imps h = (h', pss) ->
+  hoist_table (F ++ new_texts (map tkey F) (flat_map idT imps)) (G ++ new_movs (map mkey G) (flat_map idM imps)) h'.
+Proof. exact Hoisting.hoist_all_table. Qed.
+Print Assumptions hoist_all_table.
+
+Theorem hoist_all_labels :
+  forall (imps : list impdata) (F : list imptext) (G : list impmov) (h h' : hst) (pss : list (list patch)),
+  hoist_table F G h ->
+  hoist_all imps h = (h', pss) ->
+  length pss = length imps /\
+  (forall (i : nat) (imp : impdata) (ps : list patch),
+   nth_error imps i = Some imp ->
+   nth_error pss i = Some ps ->
+   exists tl ml : list text,
+     ps =
+     map (fun p : imptext * text => text_patch (fst p) (snd p)) (combine (idT imp) tl) ++
+     map (fun p : impmov * text => mov_patch (fst p) (snd p)) (combine (idM imp) ml) /\
+     length tl = length (idT imp) /\
+     length ml = length (idM imp) /\
+     Forall2 (fun (it : imptext) (l : text) => find_text (hset h') (tlit (itTok it)) (itType it) = Some l) (idT imp) tl /\
+     Forall2 (fun (im : impmov) (l : text) => assoc (hmset h') (mov_key (imToks im)) = Some l) (idM imp) ml).
+Proof. exact Hoisting.hoist_all_labels. Qed.
+Print Assumptions hoist_all_labels.
+
+Theorem hoisted_text_names_distinct :
+  forall (F : list imptext) (h : hst), text_table F h -> printable (length (htexts h)) -> NoDup (map xname (htexts h)).
+Proof. exact Hoisting.hoisted_text_names_distinct. Qed.
+Print Assumptions hoisted_text_names_distinct.
+
+Theorem text_label_determines_content :
+  forall (F : list imptext) (h : hst) (v ty v' ty' l : text),
+  text_table F h -> printable (length (htexts h)) -> In (v, ty, l) (hset h) -> In (v', ty', l) (hset h) -> v = v' /\ ty = ty'.
+Proof. exact Hoisting.text_label_determines_content. Qed.
+Print Assumptions text_label_determines_content.
+
+Theorem hoisted_text_defined_once :
+  forall (F : list imptext) (h : hst) (v ty l : text),
+  text_table F h ->
+  printable (length (htexts h)) ->
+  find_text (hset h) v ty = Some l ->
+  length (filter (fun y : textdef => text_eqb (xname y) l) (htexts h)) = 1 /\
+  (exists x : textdef,
+     In x (htexts h) /\
+     xname x = l /\ xvalue x = v /\ xtype x = ty /\ xglob x = false /\ (forall y : textdef, In y (htexts h) -> xname y = l -> y = x)).
+Proof. exact Hoisting.hoisted_text_defined_once. Qed.
+Print Assumptions hoisted_text_defined_once.
+
+Theorem hoisted_mov_names_distinct :
+  forall (G : list impmov) (h : hst), mov_table G h -> printable (length (hmovs h)) -> NoDup (mov_names (hmovs h)).
+Proof. exact Hoisting.hoisted_mov_names_distinct. Qed.
+Print Assumptions hoisted_mov_names_distinct.
+
+Theorem mov_label_determines_content :
+  forall (G : list impmov) (h : hst) (k k' l : text),
+  mov_table G h -> printable (length (hmovs h)) -> In (k, l) (hmset h) -> In (k', l) (hmset h) -> k = k'.
+Proof. exact Hoisting.mov_label_determines_content. Qed.
+Print Assumptions mov_label_determines_content.
+
+Theorem hoisted_mov_defined_once :
+  forall (G : list impmov) (h : hst) (k l : text),
+  mov_table G h ->
+  printable (length (hmovs h)) ->
+  assoc (hmset h) k = Some l ->
+  length (filter (is_mov_named l) (hmovs h)) = 1 /\
+  (exists (tk : token) (steps : list token),
+     In (TMovement l false tk steps) (hmovs h) /\
+     mov_key steps = k /\
+     (forall (g' : bool) (tk' : token) (steps' : list token),
+      In (TMovement l g' tk' steps') (hmovs h) -> g' = false /\ tk' = tk /\ steps' = steps)).
+Proof. exact Hoisting.hoisted_mov_defined_once. Qed.
+Print Assumptions hoisted_mov_defined_once.
+
+Theorem mov_key_injective :
+  forall a b : list token, Forall no_colon a -> Forall no_colon b -> mov_key a = mov_key b -> map tlit a = map tlit b.
+Proof. exact Hoisting.mov_key_injective. Qed.
+Print Assumptions mov_key_injective.
+
+Theorem parse_tops_hoists :
+  forall (autovars : list (text * autovar)) (switches : list (text * text)) (env_errors : bool)
+    (parse_format : toks -> res (token * text * text * toks)) (f : nat) (st : pstate) (ts : toks) (st' : pstate),
+  parse_tops autovars switches env_errors parse_format f st ts = Ok st' ->
+  exists (imps : list impdata) (pss : list (list patch)),
+    hoist_all imps (ph st) = (ph st', pss) /\ Forall (parsed_imp autovars switches env_errors parse_format) imps.
+Proof. exact Hoisting.parse_tops_hoists. Qed.
+Print Assumptions parse_tops_hoists.
+
+Theorem parse_program_outcome :
+  forall (autovars : list (text * autovar)) (switches : list (text * text)) (env_errors : bool)
+    (parse_format : toks -> res (token * text * text * toks)) (ts : list token) (st : pstate),
+  parse_tops autovars switches env_errors parse_format (5 * length ts + 4) pstate0 ts = Ok st ->
+  let texts := htexts (ph st) ++ ptexts st in
+  let tops := ptops st ++ hmovs (ph st) in
+  NoDup (map xname texts) /\
+  NoDup (mov_names tops) /\ parse_program autovars switches env_errors parse_format ts = Ok {| tops := tops; texts := texts |} \/
+  ~ NoDup (map xname texts) /\
+  (exists x : textdef,
+     In x texts /\
+     parse_program autovars switches env_errors parse_format ts =
+     err_tok (xtok x)
+       (String.String (Ascii.Ascii false false true false false true true false)
+          (String.String (Ascii.Ascii true false true false true true true false)
+             (String.String (Ascii.Ascii false false false false true true true false)
+                (String.String (Ascii.Ascii false false true true false true true false)
+                   (String.String (Ascii.Ascii true false false true false true true false)
+                      (String.String (Ascii.Ascii true true false false false true true false)
+                         (String.String (Ascii.Ascii true false false false false true true false)
+                            (String.String (Ascii.Ascii false false true false true true true false)
+                               (String.String (Ascii.Ascii true false true false false true true false)
+                                  (String.String (Ascii.Ascii false false false false false true false false)
+                                     (String.String (Ascii.Ascii false false true false true true true false)
+                                        (String.String (Ascii.Ascii true false true false false true true false)
+                                           (String.String (Ascii.Ascii false false false true true true true false)
+                                              (String.String (Ascii.Ascii false false true false true true true false)
+                                                 (String.String (Ascii.Ascii false false false false false true false false)
+                                                    (String.String (Ascii.Ascii false false true true false true true false)
+                                                       (String.String (Ascii.Ascii true false false false false true true false)
+                                                          (String.String (Ascii.Ascii false true false false false true true false)
+                                                             (String.String (Ascii.Ascii true false true false false true true false)
+                                                                (String.String (Ascii.Ascii false false true true false true true false)
+                                                                   String.EmptyString))))))))))))))))))))) \/
+  NoDup (map xname texts) /\
+  ~ NoDup (mov_names tops) /\
+  (exists tk : token,
+     parse_program autovars switches env_errors parse_format ts =
+     err_tok tk
+       (String.String (Ascii.Ascii false false true false false true true false)
+          (String.String (Ascii.Ascii true false true false true true true false)
+             (String.String (Ascii.Ascii false false false false true true true false)
+                (String.String (Ascii.Ascii false false true true false true true false)
+                   (String.String (Ascii.Ascii true false false true false true true false)
+                      (String.String (Ascii.Ascii true true false false false true true false)
+                         (String.String (Ascii.Ascii true false false false false true true false)
+                            (String.String (Ascii.Ascii false false true false true true true false)
+                               (String.String (Ascii.Ascii true false true false false true true false)
+                                  (String.String (Ascii.Ascii false false false false false true false false)
+                                     (String.String (Ascii.Ascii true false true true false true true false)
+                                        (String.String (Ascii.Ascii true true true true false true true false)
+                                           (String.String (Ascii.Ascii false true true false true true true false)
+                                              (String.String (Ascii.Ascii true false true false false true true false)
+                                                 (String.String (Ascii.Ascii true false true true false true true false)
+                                                    (String.String (Ascii.Ascii true false true false false true true false)
+                                                       (String.String (Ascii.Ascii false true true true false true true false)
+                                                          (String.String (Ascii.Ascii false false true false true true true false)
+                                                             (String.String (Ascii.Ascii false false false false false true false false)
+                                                                (String.String (Ascii.Ascii false false true true false true true false)
+                                                                   (String.String (Ascii.Ascii true false false false false true true false)
+                                                                      (String.String (Ascii.Ascii false true false false false true true false)
+                                                                         (String.String
+                                                                            (Ascii.Ascii true false true false false true true false)
+                                                                            (String.String
+                                                                               (Ascii.Ascii false false true true false true true false)
+                                                                               String.EmptyString))))))))))))))))))))))))).
+Proof. exact Hoisting.parse_program_outcome. Qed.
+Print Assumptions parse_program_outcome.
+
+Theorem program_hoisting :
+  forall (autovars : list (text * autovar)) (switches : list (text * text)) (env_errors : bool)
+    (parse_format : toks -> res (token * text * text * toks)) (ts : toks) (p : program),
+  parse_program autovars switches env_errors parse_format ts = Ok p ->
+  exists (st : pstate) (imps : list impdata) (pss : list (list patch)),
+    parse_tops autovars switches env_errors parse_format (5 * length ts + 4) pstate0 ts = Ok st /\
+    hoist_all imps hst0 = (ph st, pss) /\
+    Forall (parsed_imp autovars switches env_errors parse_format) imps /\
+    hoist_table (new_texts [] (flat_map idT imps)) (new_movs [] (flat_map idM imps)) (ph st) /\
+    texts p = text_defs [] (new_texts [] (flat_map idT imps)) ++ ptexts st /\
+    tops p = ptops st ++ mov_defs [] (new_movs [] (flat_map idM imps)) /\ NoDup (map xname (texts p)) /\ NoDup (mov_names (tops p)).
+Proof. exact Hoisting.program_hoisting. Qed.
+Print Assumptions program_hoisting.
+
+Theorem program_text_label_defined_once :
+  forall (autovars : list (text * autovar)) (switches : list (text * text)) (env_errors : bool)
+    (parse_format : toks -> res (token * text * text * toks)) (ts : toks) (p : program) (st : pstate) (v ty l : text),
+  parse_program autovars switches env_errors parse_format ts = Ok p ->
+  parse_tops autovars switches env_errors parse_format (5 * length ts + 4) pstate0 ts = Ok st ->
+  find_text (hset (ph st)) v ty = Some l ->
+  length (filter (fun y : textdef => text_eqb (xname y) l) (texts p)) = 1 /\
+  (exists x : textdef,
+     In x (texts p) /\
+     xname x = l /\ xvalue x = v /\ xtype x = ty /\ xglob x = false /\ (forall y : textdef, In y (texts p) -> xname y = l -> y = x)).
+Proof. exact Hoisting.program_text_label_defined_once. Qed.
+Print Assumptions program_text_label_defined_once.
+
+Theorem program_mov_label_defined_once :
+  forall (autovars : list (text * autovar)) (switches : list (text * text)) (env_errors : bool)
+    (parse_format : toks -> res (token * text * text * toks)) (ts : toks) (p : program) (st : pstate) (k l : text),
+  parse_program autovars switches env_errors parse_format ts = Ok p ->
+  parse_tops autovars switches env_errors parse_format (5 * length ts + 4) pstate0 ts = Ok st ->
+  assoc (hmset (ph st)) k = Some l ->
+  length (filter (is_mov_named l) (tops p)) = 1 /\
+  (exists (tk : token) (steps : list token),
+     In (TMovement l false tk steps) (tops p) /\
+     mov_key steps = k /\
+     (forall (g' : bool) (tk' : token) (steps' : list token),
+      In (TMovement l g' tk' steps') (tops p) -> g' = false /\ tk' = tk /\ steps' = steps)).
+Proof. exact Hoisting.program_mov_label_defined_once. Qed.
+Print Assumptions program_mov_label_defined_once.
+
+Theorem program_text_label_determines_content :
+  forall (autovars : list (text * autovar)) (switches : list (text * text)) (env_errors : bool)
+    (parse_format : toks -> res (token * text * text * toks)) (ts : toks) (p : program) (st : pstate) (v ty v' ty' l : text),
+  parse_program autovars switches env_errors parse_format ts = Ok p ->
+  parse_tops autovars switches env_errors parse_format (5 * length ts + 4) pstate0 ts = Ok st ->
+  In (v, ty, l) (hset (ph st)) -> In (v', ty', l) (hset (ph st)) -> v = v' /\ ty = ty'.
+Proof. exact Hoisting.program_text_label_determines_content. Qed.
+Print Assumptions program_text_label_determines_content.
+
+Theorem program_mov_label_determines_content :
+  forall (autovars : list (text * autovar)) (switches : list (text * text)) (env_errors : bool)
+    (parse_format : toks -> res (token * text * text * toks)) (ts : toks) (p : program) (st : pstate) (k k' l : text),
+  parse_program autovars switches env_errors parse_format ts = Ok p ->
+  parse_tops autovars switches env_errors parse_format (5 * length ts + 4) pstate0 ts = Ok st ->
+  In (k, l) (hmset (ph st)) -> In (k', l) (hmset (ph st)) -> k = k'.
+Proof. exact Hoisting.program_mov_label_determines_content. Qed.
+Print Assumptions program_mov_label_determines_content.
+
+Theorem text_name_clash_is_error :
+  forall (autovars : list (text * autovar)) (switches : list (text * text)) (env_errors : bool)
+    (parse_format : toks -> res (token * text * text * toks)) (ts : list token) (st : pstate) (x y : textdef),
+  parse_tops autovars switches env_errors parse_format (5 * length ts + 4) pstate0 ts = Ok st ->
+  In x (htexts (ph st)) ->
+  In y (ptexts st) ->
+  xname x = xname y ->
+  exists z : textdef,
+    parse_program autovars switches env_errors parse_format ts =
+    err_tok (xtok z)
+      (String.String (Ascii.Ascii false false true false false true true false)
+         (String.String (Ascii.Ascii true false true false true true true false)
+            (String.String (Ascii.Ascii false false false false true true true false)
+               (String.String (Ascii.Ascii false false true true false true true false)
+                  (String.String (Ascii.Ascii true false false true false true true false)
+                     (String.String (Ascii.Ascii true true false false false true true false)
+                        (String.String (Ascii.Ascii true false false false false true true false)
+                           (String.String (Ascii.Ascii false false true false true true true false)
+                              (String.String (Ascii.Ascii true false true false false true true false)
+                                 (String.String (Ascii.Ascii false false false false false true false false)
+                                    (String.String (Ascii.Ascii false false true false true true true false)
+                                       (String.String (Ascii.Ascii true false true false false true true false)
+                                          (String.String (Ascii.Ascii false false false true true true true false)
+                                             (String.String (Ascii.Ascii false false true false true true true false)
+                                                (String.String (Ascii.Ascii false false false false false true false false)
+                                                   (String.String (Ascii.Ascii false false true true false true true false)
+                                                      (String.String (Ascii.Ascii true false false false false true true false)
+                                                         (String.String (Ascii.Ascii false true false false false true true false)
+                                                            (String.String (Ascii.Ascii true false true false false true true false)
+                                                               (String.String (Ascii.Ascii false false true true false true true false)
+                                                                  String.EmptyString)))))))))))))))))))).
+Proof. exact Hoisting.text_name_clash_is_error. Qed.
+Print Assumptions text_name_clash_is_error.
+
+Theorem mov_name_clash_is_error :
+  forall (autovars : list (text * autovar)) (switches : list (text * text)) (env_errors : bool)
+    (parse_format : toks -> res (token * text * text * toks)) (ts : list token) (st : pstate) (n : text) (g : bool) 
+    (tk : token) (steps : list token) (g' : bool) (tk' : token) (steps' : list token),
+  parse_tops autovars switches env_errors parse_format (5 * length ts + 4) pstate0 ts = Ok st ->
+  In (TMovement n g tk steps) (ptops st) ->
+  In (TMovement n g' tk' steps') (hmovs (ph st)) -> exists e : perr, parse_program autovars switches env_errors parse_format ts = Err e.
+Proof. exact Hoisting.mov_name_clash_is_error. Qed.
+Print Assumptions mov_name_clash_is_error.
+
